@@ -71,6 +71,21 @@ def gen_box(rng, ndim):
     return lo, hi
 
 
+INF = float("inf")
+
+
+def open_sides(rng, box):
+    """one-sided / partially infinite variant of a box (some sides at -inf / +inf)"""
+    lo, hi = list(box[0]), list(box[1])
+    for i in range(len(lo)):
+        r = rng.random()
+        if r < 0.3:
+            lo[i] = -INF
+        elif r < 0.6:
+            hi[i] = INF
+    return lo, hi
+
+
 def gen_script(rng, solvers=L.SOLVERS, nops=(3, 9), p_mid=0.5, allow_modes=False, allow_vector=False,
                constraints=True, limits=True, monitors=True):
     kind = rng.choice(list(solvers))
@@ -93,15 +108,19 @@ def gen_script(rng, solvers=L.SOLVERS, nops=(3, 9), p_mid=0.5, allow_modes=False
         cfg.append(dict(op="SetRandomInitialPoints", lo=b[0], hi=b[1]))
     else:
         cfg.append(dict(op="SetInitialPoints", x0=[grid(rng, -3, 3) for _ in range(ndim)]))
+    sbox = box
+    if box and rng.random() < 0.25:
+        sbox = open_sides(rng, box)        # the strict ranges may have infinite sides; initial points stay in the finite box
     if box and rng.random() < 0.7:
-        o = dict(op="SetStrictRanges", lo=box[0], hi=box[1])
+        o = dict(op="SetStrictRanges", lo=sbox[0], hi=sbox[1])
         if allow_modes and rng.random() < 0.5:
             o["tight"], o["clip"] = rng.choice([(True, None), (None, True), (True, True), (None, False), (True, False), (False, None)])
-            if o["clip"] is None and o["tight"] and any(l == h for l, h in zip(box[0], box[1])):
-                o["tight"] = None      # symbolic bounds reject a degenerate box (an API error, not a property violation)
+            if any(v in (INF, -INF) for v in sbox[0] + sbox[1]):
+                o["tight"], o["clip"] = None, None
         cfg.append(o)
     if constraints and rng.random() < 0.5:
         cfg.append(dict(op="SetConstraints", cons=gen_cons(rng, ndim, box)))
+    cur_box = dict(op="SetStrictRanges", lo=sbox[0], hi=sbox[1]) if any(o["op"] == "SetStrictRanges" for o in cfg) else None
     if rng.random() < 0.4:
         cfg.append(dict(op="SetPenalty", pen=gen_pen(rng)))
     if limits and rng.random() < 0.6:
@@ -131,7 +150,14 @@ def gen_script(rng, solvers=L.SOLVERS, nops=(3, 9), p_mid=0.5, allow_modes=False
             elif m == "cons" and constraints:
                 ops.append(dict(op="SetConstraints", cons=gen_cons(rng, ndim, box)))
             elif m == "box":
-                if rng.random() < 0.2:
+                last = [o for o in ops if o["op"] == "SetStrictRanges" and o["lo"] is not None]
+                if last and rng.random() < 0.35:
+                    # switch the ranges off and install the very same box again (possibly with steps in between)
+                    ops.append(dict(op="SetStrictRanges", lo=None, hi=None))
+                    if rng.random() < 0.5:
+                        ops.append(dict(op="Step", cb=False))
+                    ops.append(dict(last[-1]))
+                elif rng.random() < 0.2:
                     ops.append(dict(op="SetStrictRanges", lo=None, hi=None))
                 else:
                     if box is None:
